@@ -52,6 +52,7 @@ def run_pylogix(job):
     comm = pylogix.PLC()
     comm.IPAddress, comm.Port = srv.address[0], srv.address[1]
     comm.SocketTimeout = 5.0
+    comm.StringEncoding = "iso-8859-1"        # (short strings are ISO-8859-1 characters on both sides)
     if route:
         comm.Route = [tuple(x) for x in route]          # a multi-hop connection path (backplane / network hops before the controller)
     obs, exc = [], ""
